@@ -27,10 +27,10 @@ static const char *leaf_find_needle(int ci, const char *h, size_t n, const char 
     LF.ret = ret;
     return ret;
 }
-#ifdef STUB_stp_find_cs__pc_sz_pc_sz
+#if defined(STUB_stp_find_cs__pc_sz_pc_sz) && !defined(LEAF_FIND_CUSTOM)
 const char *stp_find_cs__pc_sz_pc_sz(const char *haystack, unsigned long size, const char *needle, unsigned long needle_size) { return leaf_find_needle(0, haystack, size, needle, needle_size); }
 #endif
-#ifdef STUB_stp_find_ci__pc_sz_pc_sz
+#if defined(STUB_stp_find_ci__pc_sz_pc_sz) && !defined(LEAF_FIND_CUSTOM)
 const char *stp_find_ci__pc_sz_pc_sz(const char *haystack, unsigned long size, const char *needle, unsigned long needle_size) { return leaf_find_needle(1, haystack, size, needle, needle_size); }
 #endif
 #ifdef STUB_stp_find_ci__pc_sz_c
